@@ -1,9 +1,74 @@
 import PoryProofs.HoistFrame
 import PoryProofs.HoistModel
+import PoryProofs.HoistIds2
 /-
-C06c — hoisting of inline texts and `moves()`, closing the chain: the hoisting invariants hold for the
-final state of every parse; label ↔ content correspondence for every parsed program.
-(Helpers: PoryProofs/HoistFrame.lean, PoryProofs/HoistModel.lean; first parts: C06.lean, C06b.lean.)
+C06c — hoisting of inline texts and `moves()`, closing the chain of C06 / C06b: the hoisting invariants
+hold for the final state of EVERY parse, hence the label ↔ content correspondence holds for every parsed
+program.  Helper modules: PoryProofs/HoistFrame.lean (frame over the 13 statement functions),
+PoryProofs/HoistModel.lean (closed form of the tables), PoryProofs/HoistIds.lean + HoistIds2.lean
+(command ids).  Everything is proved in full; nothing is `_partial`.
+
+1. Frame.  `hoist_frame` (`KHAll n` for every fuel `n`): each of the 13 mutually recursive statement
+   functions — and so every parser function they call — leaves `inlineTexts`, `inlineTextsSet`,
+   `inlineTextCounts`, `inlineMovements`, `inlineMovementsSet`, `inlineMovementCounts`, `patches` and
+   `textStatements` unchanged (`block_hoist_frame`: field by field for `parseBlockStatement`); the same for
+   `parseScriptStatement`, `parseMapscriptsStatement` (+ its two loops), `parseConstant`
+   (HoistFrame.lean); `parseTextStatement` keeps the seven hoisting fields and appends the returned text to
+   `textStatements`.  `topLevel_step`: after a top-level statement the state is
+   `stepData s₁ (impOfTop env fuel s)` with `hz7 s₁ = hz7 s`, where `impOfTop` is the `ImpData` returned by
+   `parseScriptStatement` / `parseMapscriptsStatement` at that state, and `stepData` is the state change of
+   `addImplicitData` (`C06b.wp_addImplicitData`).  Hence `topLevel_hoistInv`, `topLoop_hoistInv`,
+   `parseProgram_hoistInv` and `parsed_state_hoistInv`: the state in which `parseProgramM` reads
+   `inlineTexts`, `inlineMovements`, `patches` satisfies `C06b.HoistInv`, for every successful
+   `parseTokens`.
+
+2. Closed form.  `history env fuel n s` = the implicit data of the top-level statements the loop parses, in
+   order; `collected env toks` = the history of `parseTokens env toks`; `inlineTextsOf` / `inlineMovesOf` /
+   `inlineItemsOf` = its texts / movements / items (per statement: texts, then movements).
+   `parseTokens_model`: the final state satisfies `HoistModel.Model` for them, i.e.
+   `inlineTexts = hoistedTexts (inlineTextsOf …)`: one record per FIRST occurrence of a
+   `(content, string type)` key (`firstOccBy keyOf`), in order of first appearance, record `i` named
+   `getImplicitTextLabel owner_i (number of earlier first occurrences with the same owner)`.
+   `parsed_program_shape`: `p.texts = hoistedTexts … ++ textsOf tops` (`textsOf tops` = the `text` statements)
+   and `p.tops = tops ++ (hoistedMoves …).map .movement`.
+   `parsed_texts_bijection` / `parsed_movements_bijection`: names pairwise distinct, keys pairwise distinct,
+   keys = keys of the inline items (as sets; in order of first appearance as lists), name `i` =
+   `label owner_i ((owners.take i).count owner_i)`, and NO GAPS:
+   `label o k ∈ names ↔ k < owners.count o`; all hoisted records are local.
+
+3. Patches.  `parsed_patches_point_to_texts`: `p.patches` corresponds one-to-one, in order, to
+   `inlineItemsOf env toks`; patch `i` is for the slot `(cmdId, argPos)` of item `i`, and its label is the
+   name of exactly one hoisted text (movement) of `p`, whose value and string type (movement key) are
+   those of the item, which is local, and no record of the other kind has that name (`Defines`).
+   `parsed_text_labels_iff` / `parsed_move_labels_iff`: two patches carry the same label IFF their items
+   have the same content key — identical content shares one label across the whole file, different content
+   never shares one; `parsed_text_move_labels_ne`.
+   The link to the source text is `impOfTop`: it is literally the `ImpData` the model's
+   `parseScriptStatement` returns; P1 (`parse_block_elab`, `parse_script_print`) describes that value for
+   programs in the reference syntax.
+
+4. Slots.  Slots are NOT always distinct (finding F21, `C06b.same_slot_last_wins`: two inline items in one
+   argument share `(cmdId, argPos)`).  What holds:
+   * `command_items_slots`: `parseCommandStatement` takes the id `nextCmdId`, increments the counter by
+     exactly one, and every item it collects has that `cmdId`, `argPos < args.length` (the patched slot
+     exists) and `scriptName` = the script name passed down;
+   * `block_items_ids` (from `idsAll`, HoistIds2.lean: an invariant over the 13 statement functions): no
+     statement function decreases `nextCmdId`; the items a block collects have ids in
+     `[nextCmdId at entry, nextCmdId at exit)` and are owned by the block's script name;
+   * `topLevel_ids`, `history_ids`, `patches_of_distinct_statements_disjoint`: the items of different
+     top-level statements have different command ids (later statement ⇒ larger ids); the items of a
+     `script` statement are owned by that script's name.
+   NOT proved: the AST-level statement "the `Cmd` nodes of a parsed program have pairwise distinct ids and
+   every patch's `cmdId` is the id of a `Cmd` node of the program" (needs a traversal of the nested
+   `Stmt` type as in TokProvenance*.lean); the per-command and per-block statements above are its
+   ingredients.
+
+Observations about the model: (a) all cases of a statement-level `poryswitch` are parsed (each consumes
+command ids) but only the selected case's implicit data is kept, so command ids of a parsed program may
+have gaps — harmless; (b) a hoisted text keeps the token of the FIRST occurrence of its content
+(`hoistedTexts_toks`), a hoisted movement the command token of the first `moves()` with that key; (c) the
+owner of a shared record is the script of the first occurrence: in the example below script `B`'s
+`"Hi"` is `A_Text_0`, and `B`'s own numbering starts at `B_Text_0` with its first NEW content.
 -/
 namespace Pory.C06c
 open Pory Pory.Parser Pory.Hoist Pory.C06 Pory.C06b Pory.HoistModel
@@ -466,6 +531,162 @@ theorem parsed_text_move_labels_ne (env : Env) (toks : List Tok) (p : Program)
   obtain ⟨_, hp⟩ := parsed_patches_point_to_texts env toks p h
   exact defines_text_ne_move (hp i q1 _ hq1 ht1).2 (hp j q2 _ hq2 ht2).2
 
+/-! ## 4. Command ids and argument slots of the patches -/
+
+theorem nextCmdId_stepData (s : PState) (d : ImpData) : (stepData s d).nextCmdId = s.nextCmdId := by
+  have h1 : ∀ (l : List ImpText) (s : PState), (l.foldl addTextStep s).nextCmdId = s.nextCmdId := by
+    intro l
+    induction l with
+    | nil => intro s; rfl
+    | cons x r ih =>
+      intro s
+      rw [List.foldl_cons, ih]
+      cases hlk : s.inlineTextsSet.lookup (x.text.lit, x.stringType) <;> simp [addTextStep, hlk]
+  have h2 : ∀ (l : List ImpMovement) (s : PState), (l.foldl addMovementStep s).nextCmdId = s.nextCmdId := by
+    intro l
+    induction l with
+    | nil => intro s; rfl
+    | cons x r ih =>
+      intro s
+      rw [List.foldl_cons, ih]
+      cases hlk : s.inlineMovementsSet.lookup (getMovementsKey x.movements) <;> simp [addMovementStep, hlk]
+  unfold stepData
+  rw [h2, h1]
+
+/-- **One command**: `parseCommandStatement` gives the command the id `nextCmdId` and increments the
+counter; every inline item it collects carries that id, an argument index that exists in the command
+(`argPos < args.length`, so the patch does replace an argument: `C06b.patched_slot`), and the name of
+the script. Two items inside one argument share the slot (finding F21, `C06b.same_slot_last_wins`). -/
+theorem command_items_slots (env : Env) (sn : String) (n : Nat) (s : PState) :
+    wp (parseCommandStatement env sn n) s (fun r s' =>
+      r.1.id = s.nextCmdId ∧ s'.nextCmdId = s.nextCmdId + 1 ∧
+      (∀ t ∈ r.2.texts, t.cmdId = r.1.id ∧ t.argPos < r.1.args.length ∧ t.scriptName = sn) ∧
+      (∀ m ∈ r.2.movements, m.cmdId = r.1.id ∧ m.argPos < r.1.args.length ∧ m.scriptName = sn)) :=
+  parseCommandStatement_slots env sn n s
+
+/-- **Statement functions**: no function of the statement block decreases `nextCmdId`, and the items a
+block collects have ids in `[nextCmdId at entry, nextCmdId at exit)` and are owned by the script name of
+the block — so a command parsed later (from a later state) gets a larger id than every id used before. -/
+theorem block_items_ids (env : Env) (sn : String) (tok : Tok) (n : Nat) (acc : List Stmt) (s : PState) :
+    wp (parseBlockStatement env sn tok n acc {}) s (fun r s' =>
+      s.nextCmdId ≤ s'.nextCmdId ∧
+      (∀ t ∈ r.2.texts, s.nextCmdId ≤ t.cmdId ∧ t.cmdId < s'.nextCmdId ∧ t.scriptName = sn) ∧
+      (∀ m ∈ r.2.movements, s.nextCmdId ≤ m.cmdId ∧ m.cmdId < s'.nextCmdId ∧ m.scriptName = sn)) :=
+  ids_parseBlockStatement env sn tok n acc s
+
+theorem idsIn_items {lo hi : Nat} {d : ImpData} (h : IdsIn lo hi d) :
+    ∀ it ∈ itemsOf d, lo ≤ (slotOf it).1 ∧ (slotOf it).1 < hi := by
+  intro it hit
+  simp only [itemsOf, List.mem_append, List.mem_map] at hit
+  rcases hit with ⟨t, ht, rfl⟩ | ⟨m, hm, rfl⟩
+  · exact h.1 t ht
+  · exact h.2 m hm
+
+/-- One top-level statement: the counter does not decrease, the ids of its items lie between the
+counter values before and after, and the items of a `script` statement are owned by that script. -/
+theorem topLevel_ids (env : Env) (fuel : Nat) (s : PState) :
+    wp (parseTopLevelStatement env fuel) s (fun r s' =>
+      s.nextCmdId ≤ s'.nextCmdId ∧ IdsIn s.nextCmdId s'.nextCmdId (impOfTop env fuel s) ∧
+      ∀ scr, r = some (.script scr) → ItemsIn s.nextCmdId s'.nextCmdId scr.name (impOfTop env fuel s)) := by
+  unfold parseTopLevelStatement
+  swp
+  split
+  · next hty =>
+    swp [wp_spec (ids_parseScriptStatement _ _ _), wp_addImplicitData]
+    intro a s1 hr h
+    have himp : impOfTop env fuel s = a.2 := by
+      unfold impOfTop; simp only [hty, hr]
+    have hn : (List.foldl addMovementStep (List.foldl addTextStep s1 a.2.texts) a.2.movements).nextCmdId =
+        s1.nextCmdId := nextCmdId_stepData s1 a.2
+    rw [hn, himp]
+    refine ⟨h.1, h.2.idsIn, ?_⟩
+    intro scr hscr
+    cases hscr
+    exact h.2
+  · next hty =>
+    have himp : impOfTop env fuel s = {} := by unfold impOfTop; simp only [hty]
+    swp [(tframe_parseRawStatement).wp_iff]
+    intro a l _
+    rw [himp]
+    exact ⟨IdsIn.empty _ _, fun scr _ => ItemsIn.empty _ _ _⟩
+  · next hty =>
+    have himp : impOfTop env fuel s = {} := by unfold impOfTop; simp only [hty]
+    swp [wp_spec (kn_parseTextStatement env fuel s)]
+    intro a s' _ h
+    rw [himp, h]
+    exact ⟨Nat.le_refl _, IdsIn.empty _ _, fun scr _ => ItemsIn.empty _ _ _⟩
+  · next hty =>
+    have himp : impOfTop env fuel s = {} := by unfold impOfTop; simp only [hty]
+    swp [(tframe_parseMovementStatement _ _).wp_iff]
+    intro a l _
+    rw [himp]
+    exact ⟨IdsIn.empty _ _, fun scr _ => ItemsIn.empty _ _ _⟩
+  · next hty =>
+    have himp : impOfTop env fuel s = {} := by unfold impOfTop; simp only [hty]
+    swp [(tframe_parseMartStatement _ _).wp_iff]
+    intro a l _
+    rw [himp]
+    exact ⟨IdsIn.empty _ _, fun scr _ => ItemsIn.empty _ _ _⟩
+  · next hty =>
+    swp [wp_spec (ids_parseMapscriptsStatement _ _ _), wp_addImplicitData]
+    intro a s1 hr h
+    have himp : impOfTop env fuel s = a.2 := by
+      unfold impOfTop; simp only [hty, hr]
+    have hn : (List.foldl addMovementStep (List.foldl addTextStep s1 a.2.texts) a.2.movements).nextCmdId =
+        s1.nextCmdId := nextCmdId_stepData s1 a.2
+    rw [hn, himp]
+    exact ⟨h.1, h.2, fun scr hscr => by cases hscr⟩
+  · next hty =>
+    have himp : impOfTop env fuel s = {} := by unfold impOfTop; simp only [hty]
+    swp [wp_spec (kn_parseConstant fuel s)]
+    intro a s' _ h
+    rw [himp, h]
+    exact ⟨Nat.le_refl _, IdsIn.empty _ _, fun scr _ => ItemsIn.empty _ _ _⟩
+  · swp
+
+/-- The items of later top-level statements have larger command ids than the items of earlier ones. -/
+def Separated (H : List ImpData) : Prop :=
+  H.Pairwise fun d1 d2 => ∀ i1 ∈ itemsOf d1, ∀ i2 ∈ itemsOf d2, (slotOf i1).1 < (slotOf i2).1
+
+theorem history_ids (env : Env) (fuel : Nat) : ∀ (n : Nat) (s : PState),
+    Separated (history env fuel n s) ∧
+    ∀ d ∈ history env fuel n s, ∀ it ∈ itemsOf d, s.nextCmdId ≤ (slotOf it).1 := by
+  intro n
+  induction n with
+  | zero => intro s; exact ⟨List.Pairwise.nil, fun _ h => absurd h List.not_mem_nil⟩
+  | succ n ih =>
+    intro s
+    unfold history
+    split
+    · exact ⟨List.Pairwise.nil, fun _ h => absurd h List.not_mem_nil⟩
+    · split
+      · next a s1 hr =>
+        obtain ⟨hle, hids, _⟩ := topLevel_ids env fuel s _ _ hr
+        obtain ⟨ih1, ih2⟩ := ih (upd s1 s1.toks.tail s1.nextCmdId)
+        have hit := idsIn_items hids
+        refine ⟨List.Pairwise.cons ?_ ih1, ?_⟩
+        · intro d hd i1 hi1 i2 hi2
+          have h1 := (hit i1 hi1).2
+          have h2 := ih2 d hd i2 hi2
+          simp only [upd_nextCmdId] at h2
+          omega
+        · intro d hd it hit'
+          rcases List.mem_cons.1 hd with rfl | hd
+          · exact (hit it hit').1
+          · have h2 := ih2 d hd it hit'
+            simp only [upd_nextCmdId] at h2
+            omega
+      · exact ⟨List.Pairwise.nil, fun _ h => absurd h List.not_mem_nil⟩
+
+/-- **patches_of_distinct_statements_disjoint**: in every parse, the inline items collected for
+different top-level statements (scripts, mapscripts) carry different command ids — those of a later
+statement are larger — so the patches of one script never hit a command of another. Inside one
+statement the same holds command by command (`command_items_slots`, `block_items_ids`: each command
+statement takes one fresh id and `nextCmdId` never decreases); two items of ONE command differ in
+`argPos` exactly when a top-level comma of the argument list separates them (F21 otherwise). -/
+theorem patches_of_distinct_statements_disjoint (env : Env) (toks : List Tok) :
+    Separated (collected env toks) := (history_ids env _ _ _).1
+
 /-! ## Non-vacuity: two scripts, a repeated text under two string types, a repeated `moves()` -/
 
 def tk (t : TT) (l : String) : Tok := { type := t, lit := l }
@@ -598,5 +819,97 @@ example : ∃ p q0 q3 t0 t3, parseTokens {} exToks = .ok p ∧ p.patches[0]? = s
           (k0.trans k3.symm)
       · rw [h2]; exact (Prod.mk.inj k3).1
       · rw [h3]; exact (Prod.mk.inj k3).2
+
+/-- `patches_of_distinct_statements_disjoint` on the example: three top-level statements (`script A`,
+`text T`, `script B`); script `A` uses the command ids 0–2, script `B` 3–5 (`ex_items`). -/
+example : Separated (collected {} exToks) ∧ (collected {} exToks).length = 3 :=
+  ⟨patches_of_distinct_statements_disjoint _ _, by decide +kernel⟩
+
+/-- `topLevel_ids` on the first statement of the example: ids in `[0, 3)`, owner `A`. -/
+example : ∃ scr s', (parseTopLevelStatement {} (fuelOf exToks)).run (initState exToks) =
+      .ok (some (.script scr), s') ∧ scr.name = "A" ∧ s'.nextCmdId = 3 ∧
+    ItemsIn 0 3 "A" (impOfTop {} (fuelOf exToks) (initState exToks)) ∧
+    (impOfTop {} (fuelOf exToks) (initState exToks)).texts.length = 2 := by
+  have key : (match (parseTopLevelStatement {} (fuelOf exToks)).run (initState exToks) with
+      | .ok (some (.script scr), s') => some (scr.name, s'.nextCmdId)
+      | _ => none) = some ("A", 3) := by decide +kernel
+  have hlen : (impOfTop {} (fuelOf exToks) (initState exToks)).texts.length = 2 := by decide +kernel
+  cases h : (parseTopLevelStatement {} (fuelOf exToks)).run (initState exToks) with
+  | error e => rw [h] at key; cases key
+  | ok r =>
+    obtain ⟨o, s'⟩ := r
+    rw [h] at key
+    cases o with
+    | none => cases key
+    | some t =>
+      cases t <;> simp at key
+      rename_i scr
+      obtain ⟨hn, hc⟩ := key
+      have := topLevel_ids {} (fuelOf exToks) (initState exToks) _ _ h
+      refine ⟨scr, s', rfl, hn, hc, ?_, hlen⟩
+      have h3 := this.2.2 scr rfl
+      rw [hn, hc] at h3
+      exact h3
+
+/-- `command_items_slots` on `msgbox("Hi", moves(walk_up))` parsed with `nextCmdId = 7` in script `A`:
+the command gets id 7 and two arguments; the text patches slot `(7, 0)`, the movement slot `(7, 1)`. -/
+def cmdState : PState :=
+  { toks := [tk .IDENT "msgbox", tk .LPAREN "(", tk .STRING "Hi", tk .COMMA ",", tk .MOVES "moves",
+             tk .LPAREN "(", tk .IDENT "walk_up", tk .RPAREN ")", tk .RPAREN ")", tk .RBRACE "}"],
+    eof := tk .EOF "", nextCmdId := 7 }
+
+example : ∃ r s', (parseCommandStatement {} "A" 20).run cmdState = .ok (r, s') ∧
+    r.1.id = 7 ∧ r.1.args.length = 2 ∧ s'.nextCmdId = 8 ∧
+    r.2.texts.map (fun t => (t.cmdId, t.argPos)) = [(7, 0)] ∧
+    r.2.movements.map (fun m => (m.cmdId, m.argPos)) = [(7, 1)] ∧
+    (∀ t ∈ r.2.texts, t.cmdId = r.1.id ∧ t.argPos < r.1.args.length ∧ t.scriptName = "A") := by
+  have key : (match (parseCommandStatement {} "A" 20).run cmdState with
+      | .ok (r, _) => some (r.1.args.length, r.2.texts.map (fun t => (t.cmdId, t.argPos)),
+          r.2.movements.map (fun m => (m.cmdId, m.argPos)))
+      | .error _ => none) = some (2, [(7, 0)], [(7, 1)]) := by decide +kernel
+  cases h : (parseCommandStatement {} "A" 20).run cmdState with
+  | error e => rw [h] at key; cases key
+  | ok x =>
+    obtain ⟨r, s'⟩ := x
+    rw [h] at key
+    simp only [Option.some.injEq, Prod.mk.injEq] at key
+    obtain ⟨h1, h2, h3, h4⟩ := command_items_slots {} "A" 20 cmdState r s' h
+    exact ⟨r, s', rfl, h1, key.1, h2, key.2.1, key.2.2, h3⟩
+
+/-- `hoist_frame` (`block_hoist_frame`) on a block `msgbox("Hi", moves(walk_up)) }` parsed in a state
+whose hoisting tables are not empty: the block collects two inline items but leaves the tables alone. -/
+def frameState : PState :=
+  { cmdState with inlineTexts := [{ name := "X_Text_0", value := "old$" }],
+                  inlineTextsSet := [(("old$", ""), "X_Text_0")], inlineTextCounts := [("X", 1)],
+                  patches := [((0, 0), "X_Text_0")] }
+
+example : ∃ r s', (parseBlockStatement {} "A" (tk .LBRACE "{") 30 [] {}).run frameState = .ok (r, s') ∧
+    r.2.texts.length = 1 ∧ r.2.movements.length = 1 ∧
+    s'.inlineTexts = frameState.inlineTexts ∧ s'.inlineTextsSet = frameState.inlineTextsSet ∧
+    s'.inlineTextCounts = frameState.inlineTextCounts ∧ s'.patches = frameState.patches := by
+  have key : (match (parseBlockStatement {} "A" (tk .LBRACE "{") 30 [] {}).run frameState with
+      | .ok (r, _) => some (r.2.texts.length, r.2.movements.length)
+      | .error _ => none) = some (1, 1) := by decide +kernel
+  cases h : (parseBlockStatement {} "A" (tk .LBRACE "{") 30 [] {}).run frameState with
+  | error e => rw [h] at key; cases key
+  | ok x =>
+    obtain ⟨r, s'⟩ := x
+    rw [h] at key
+    simp only [Option.some.injEq, Prod.mk.injEq] at key
+    obtain ⟨a1, a2, a3, _, _, _, a7, _⟩ := block_hoist_frame {} "A" (tk .LBRACE "{") 30 [] {} frameState r s' h
+    exact ⟨r, s', rfl, key.1, key.2, a1, a2, a3, a7⟩
+
+/-- `topLevel_hoistInv` on the first statement of the example. -/
+example : ∃ r s', (parseTopLevelStatement {} (fuelOf exToks)).run (initState exToks) = .ok (r, s') ∧
+    HoistInv s' ∧ s'.patches.length = 3 := by
+  have key : (match (parseTopLevelStatement {} (fuelOf exToks)).run (initState exToks) with
+      | .ok (_, s') => some s'.patches.length
+      | .error _ => none) = some 3 := by decide +kernel
+  cases h : (parseTopLevelStatement {} (fuelOf exToks)).run (initState exToks) with
+  | error e => rw [h] at key; cases key
+  | ok x =>
+    obtain ⟨r, s'⟩ := x
+    rw [h] at key
+    exact ⟨r, s', rfl, (topLevel_hoistInv {} _ _ (hoistInv_initial _ _) r s' h).1, Option.some.inj key⟩
 
 end Pory.C06c
